@@ -54,6 +54,9 @@ def run(repo, rep):
     rep.clause("C11-d3", "the reader owns a private copy of constant data (rewrites edit tensor values in place)")
     rep.clause("C11-e", "rewrites that may visit CPU-resident operators do not mutate them before checking run_on_npu (thorough tier)")
     rep.undecided("that each surviving operator appears exactly once in dependency order for every network; that the file parses with a plain flatbuffer parser")
+    from .shared import mirror_families
+
+    mirror_families(repo, rep, "C11-d", {('operation', 'res', 'self'): 'Operation.clone'})
     tm = repo.mod("tflite_mapping")
     rule_serializers(repo, rep, tm)
     rule_maps(repo, rep, tm)
